@@ -161,6 +161,15 @@ def decide(prop, mod, tier, seed, shards, results, wall, replaying=False):
         if evaluations == 0:
             inconclusive.append("no case was evaluated")
 
+    # optional cross-shard oracle (e.g. the same block decoded in different contexts by different processes)
+    if hasattr(mod, "cross_check") and not replaying:
+        try:
+            for v in mod.cross_check(extra):
+                vio.setdefault(v["key"], []).append(v)
+                vio_counts[v["key"]] = vio_counts.get(v["key"], 0) + 1
+        except Exception as e:      # noqa
+            inconclusive.append(f"cross_check failed: {e!r}")
+
     known = load_known(prop)
     new_keys = [k for k in vio if k not in known]
     known_keys = [k for k in vio if k in known]
